@@ -559,6 +559,25 @@ func runC06(c *Ctx) {
 			})
 			c.CheckAt("C06.R2", "(*centrifuge.Client).compensateRacedPresence: membership re-check under c.mu", w.Pos(compFn.Pos()), okLookup, "compensation must re-check channel membership under the lock")
 			c.CheckAt("C06.R2", "(*centrifuge.Client).compensateRacedPresence: calls removeRacedPresence", w.Pos(compFn.Pos()), len(CallsIn(compFn, false, w.calleeIs("Client.removeRacedPresence"))) > 0, "raced entries must be removed")
+			// presence entries carry no generation: a channel counts as raced only when it is absent
+			nr := 0
+			EachInstr(compFn, func(in ssa.Instruction) {
+				st, ok := in.(*ssa.Store)
+				if !ok {
+					return
+				}
+				fa, ok := st.Addr.(*ssa.FieldAddr)
+				if !ok || !fieldAddrIs(fa, "channelTickItem", "raced") {
+					return
+				}
+				if v, known := boolConst(st.Val); !known || !v {
+					return
+				}
+				nr++
+				okG := GuardedBy(st, func(g Guard) bool { return !g.Pol && strings.HasPrefix(D(g.Cond), "ok(Client.channels[") })
+				c.Check("C06.R2", st, "a channel is compensated only when it is absent from Client.channels", okG, "presence is keyed by channel and client, not by subscription generation: treating a re-subscribed channel as raced removes the presence entry its live subscription owns")
+			})
+			c.Anchor("C06.R2", "raced marker store in compensateRacedPresence", nr > 0)
 		}
 	}
 	// R3
@@ -711,6 +730,40 @@ func runC07(c *Ctx) {
 			}
 			bad := PathQ{Stop: instrPred(w.calleeIs("Node.removeSubscription")), Goal: isReturn}.From(ci)
 			c.Check("C07.R3", ci, "a failed leave does not abort the teardown", bad == nil || !errUsed, "returning before the hub removal leaves a routing entry for a channel the connection no longer reports")
+		}
+	}
+	// R3b: the flags that decide the teardown are the ones read after the wait gates (the entry
+	// actually removed), never a snapshot taken before waiting for an in-flight subscribe.
+	if unsub != nil {
+		var selects []ssa.Instruction
+		EachInstr(unsub, func(in ssa.Instruction) {
+			if s, ok := in.(*ssa.Select); ok {
+				selects = append(selects, s)
+			}
+		})
+		if c.Anchor("C07.R3", "wait gates (select) in Client.unsubscribe", len(selects) > 0) {
+			targets := CallsIn(unsub, false, orPred(w.calleeIs("Node.publishLeave", "Node.removePresence", "Client.removeMapPresence", "Client.cleanupKeyed"), fieldFuncCall("clientEventHub", "unsubscribeHandler")))
+			for _, ci := range targets {
+				stale := ""
+				for _, g := range Guards(ci) {
+					call, ok := g.Cond.(*ssa.Call)
+					var condIn ssa.Instruction
+					if ok && call.Call.StaticCallee() != nil && isFlagHelper(call.Call.StaticCallee()) {
+						condIn = call
+					} else if b, ok := g.Cond.(*ssa.BinOp); ok && strings.Contains(D(b), ".flags") {
+						condIn = b
+					}
+					if condIn == nil {
+						continue
+					}
+					for _, s := range selects {
+						if Reaches(condIn, s) {
+							stale = D(g.Cond) + " evaluated at " + w.InstrPos(condIn)
+						}
+					}
+				}
+				c.Check("C07.R3", ci, "teardown decided from flags read after the wait gates", stale == "", "an unsubscribe that waited for an in-flight subscribe tears down the subscription that finalized meanwhile; deciding from the pre-wait snapshot (a bare reservation) skips its leave / presence removal / callback ("+stale+")")
+			}
 		}
 	}
 	// R4
